@@ -691,11 +691,26 @@ func c13WriterReset(e *Env) {
 			if !ok {
 				return true
 			}
-			// receiver path goes through the output buffer
+			// receiver path goes through the output buffer (or a local assigned from it)
+			outAlias := map[*types.Var]bool{}
+			ast.Inspect(fi.Decl.Body, func(m ast.Node) bool {
+				if as, ok := m.(*ast.AssignStmt); ok && len(as.Lhs) == len(as.Rhs) {
+					for i, rh := range as.Rhs {
+						if usedVar(info, rh) == outF {
+							if lv := usedVar(info, as.Lhs[i]); lv != nil && !lv.IsField() {
+								outAlias[lv] = true
+							}
+						}
+					}
+				}
+				return true
+			})
 			viaOut := false
 			ast.Inspect(se.X, func(m ast.Node) bool {
-				if x, ok := m.(ast.Expr); ok && usedVar(info, x) == outF {
-					viaOut = true
+				if x, ok := m.(ast.Expr); ok {
+					if v := usedVar(info, x); v != nil && (v == outF || outAlias[v]) {
+						viaOut = true
+					}
 				}
 				return true
 			})
